@@ -7,7 +7,7 @@ from props import searchprop as SP
 
 def run(ctx):
     prop = "C11"
-    gate, err = SP.prepare(prop)
+    gate, err = SP.prepare(prop, extra_targets=["props/C11chess.vo"])
     if err:
         return err
     violations, cov = [], {"samples": []}
